@@ -18,13 +18,38 @@ import (
 
 func c01Rewrite(c *core.Ctx) {
 	c.Rule("R-C01-8", "rewrite mode agrees with the match: MuxPath.rewrite installs the bare rewriteTarget only when the request path equals the entry's exact path, the prefix form only when the path has the entry's prefix, and the regexp form only when neither of the two matched (an entry may configure several matchers; the rewrite must follow the one that matched this request)")
-	f := fn(c, hs, "MuxPath", "rewrite")
-	if f == nil {
+	ro := muxRolesOf(c, "R-C01-8")
+	if ro == nil {
 		return
 	}
-	cons := fname(hs, "MuxPath", "rewrite")
-	prefixF := structField(c, hs, "MuxPath", "pathPrefix")
-	targetF := structField(c, hs, "MuxPath", "rewriteTarget")
+	f, nc := muxFuncByRole(c, hs, "rewrite", func(g *flow.Func, fd *ast.FuncDecl) bool {
+		fo := muxFuncObj(g)
+		if fo == nil || !muxSameNamed(muxRecvNamed(fo), ro.pathT) {
+			return false
+		}
+		sig := fo.Type().(*types.Signature)
+		return sig.Results().Len() == 0 && sig.Params().Len() == 1 && muxIsPtrTo(sig.Params().At(0).Type(), ro.requestT) && muxRequestMethodUsed(g, "SetPath")
+	})
+	if f == nil {
+		c.Errorf("R-C01-8: anchor: cannot resolve the rewrite method (the MuxPath method taking the request that calls SetPath; %d candidates)", nc)
+		return
+	}
+	c.Count("functions_analysed", 1)
+	cons := muxFuncConstruct(f)
+	specField := func(name string) *types.Var {
+		pt := muxNamedTypeOpt(f.Pkg.Types, "Path")
+		if pt == nil {
+			return nil
+		}
+		return muxFieldInitFrom(c, ro.pathT, muxOneField(pt, name, func(v *types.Var) bool { return v.Name() == name }))
+	}
+	exactF, prefixF, targetF := specField("Path"), specField("PathPrefix"), specField("RewriteTarget")
+	if exactF == nil || prefixF == nil || targetF == nil {
+		c.Errorf("R-C01-8: anchor: cannot resolve the MuxPath fields initialised from Path.Path / Path.PathPrefix / Path.RewriteTarget")
+		return
+	}
+	fns := reach(f, 2)
+	vf := newMuxFlow(fns)
 	fieldIn := func(e ast.Expr, fld *types.Var) bool {
 		found := false
 		ast.Inspect(e, func(n ast.Node) bool {
@@ -63,9 +88,16 @@ func c01Rewrite(c *core.Ctx) {
 		return ""
 	}
 	var sets []*ast.CallExpr
-	for _, call := range calls(f.Body, false) {
-		if calleeIs(f, call, "(*pkg/protocols/httpprot.Request).SetPath") && len(call.Args) == 1 {
-			sets = append(sets, call)
+	for _, g := range fns {
+		for _, call := range calls(g.Body, false) {
+			if len(call.Args) != 1 {
+				continue
+			}
+			if calleeIs(g, call, "(*pkg/protocols/httpprot.Request).SetPath") {
+				sets = append(sets, call)
+			} else if fo, _, _ := vf.localCallee(call); fo != nil && strings.HasSuffix(fo.FullName(), "pkg/protocols/httpprot.Request).SetPath") {
+				sets = append(sets, call) // setPath := r.SetPath; setPath(x)
+			}
 		}
 	}
 	if !c.RequireCount("R-C01-8", "SetPath calls in MuxPath.rewrite", len(sets), 1) {
@@ -73,7 +105,7 @@ func c01Rewrite(c *core.Ctx) {
 	}
 	// atoms: request path variable = local assigned from r.Path()
 	var pathVar types.Object
-	ast.Inspect(f.Body, func(n ast.Node) bool {
+	inspectReach(f, 2, func(_ *flow.Func, n ast.Node) bool {
 		if as, ok := n.(*ast.AssignStmt); ok && len(as.Lhs) == 1 && len(as.Rhs) == 1 {
 			if call, ok := as.Rhs[0].(*ast.CallExpr); ok && calleeIs(f, call, "(*pkg/protocols/httpprot.Request).Path") {
 				if id, ok := as.Lhs[0].(*ast.Ident); ok && pathVar == nil {
@@ -86,7 +118,7 @@ func c01Rewrite(c *core.Ctx) {
 	// facts are found by scanning the state for keys mentioning the fields
 	exactKnown := func(st *flow.State) flow.Val { // request path == mp.path
 		for _, fact := range st.Facts() {
-			if strings.HasPrefix(fact, "eq:") && strings.Contains(fact, ".path==") || strings.HasPrefix(fact, "eq:") && strings.HasSuffix(fact[:len(fact)-2], ".path") {
+			if strings.HasPrefix(fact, "eq:") && strings.Contains(fact, "."+exactF.Name()+"==") || strings.HasPrefix(fact, "eq:") && strings.HasSuffix(fact[:len(fact)-2], "."+exactF.Name()) {
 				if strings.Contains(fact, `==""`) {
 					continue
 				}
@@ -111,7 +143,7 @@ func c01Rewrite(c *core.Ctx) {
 	}
 	prefixKnown := func(st *flow.State) flow.Val {
 		for _, fact := range st.Facts() {
-			if strings.HasPrefix(fact, "call:strings.HasPrefix(") && strings.Contains(fact, ".pathPrefix)") {
+			if strings.HasPrefix(fact, "call:strings.HasPrefix(") && strings.Contains(fact, "."+prefixF.Name()+")") {
 				if strings.HasSuffix(fact, "=T") {
 					return flow.True
 				}
@@ -124,8 +156,8 @@ func c01Rewrite(c *core.Ctx) {
 	// agrees with the matcher outcomes known there
 	judge := func(st *flow.State, mode string) string {
 		ex, pre := exactKnown(st), prefixKnown(st)
-		exOff := ex == flow.False || emptyKnown(st, "path") == flow.True
-		preOff := pre == flow.False || emptyKnown(st, "pathPrefix") == flow.True
+		exOff := ex == flow.False || emptyKnown(st, exactF.Name()) == flow.True
+		preOff := pre == flow.False || emptyKnown(st, prefixF.Name()) == flow.True
 		switch mode {
 		case "exact":
 			if ex != flow.True {
@@ -145,7 +177,7 @@ func c01Rewrite(c *core.Ctx) {
 		return ""
 	}
 	whys := map[string]string{}
-	res := analyze(c, f, flow.Config{NoHavoc: true,
+	res := muxAnalyzeInl(c, f, flow.Config{NoHavoc: true,
 		OnNode: func(st *flow.State, n ast.Node) {
 			as, ok := n.(*ast.AssignStmt)
 			if !ok || len(as.Lhs) != 1 || len(as.Rhs) != 1 {
@@ -209,66 +241,126 @@ func c01Rewrite(c *core.Ctx) {
 
 // R-C01-9: the header matcher depends on a header value only through its two predicates.
 
-func c01HeaderValue(c *core.Ctx) {
-	c.Rule("R-C01-9", "header conditions: in MuxPath.matchHeaders a request header value is used only as the argument of the value-list test and of the regexp test (no additional condition on the value, e.g. emptiness: an absent header can satisfy a condition whose values/regexp admit the empty string)")
-	f := fn(c, hs, "MuxPath", "matchHeaders")
-	if f == nil {
-		return
+// c01ValueUses checks how the tracked values (variables holding a request attribute) are used in
+// the function set: handing one to a same-package helper of the set makes the helper's parameter
+// a tracked value too; every other use must be accepted by okUse (parent = the innermost
+// non-parenthesis node around the identifier). Returns the number of uses and a bad one.
+func c01ValueUses(fns []*flow.Func, vals map[types.Object]bool, okUse func(g *flow.Func, id *ast.Ident, parent ast.Node) bool) (int, ast.Node) {
+	if len(fns) == 0 {
+		return 0, nil
 	}
-	cons := fname(hs, "MuxPath", "matchHeaders")
-	vals := map[types.Object]bool{}
-	ast.Inspect(f.Body, func(n ast.Node) bool {
-		if as, ok := n.(*ast.AssignStmt); ok && len(as.Lhs) == 1 && len(as.Rhs) == 1 {
-			if call, ok := as.Rhs[0].(*ast.CallExpr); ok {
-				full := calleeFull(f, call)
-				if full == "(net/http.Header).Get" || full == "(net/http.Header).Values" {
-					if id, ok := as.Lhs[0].(*ast.Ident); ok {
-						obj := f.Info.Defs[id]
-						if obj == nil {
-							obj = f.Info.Uses[id]
+	info := fns[0].Info
+	vf := newMuxFlow(fns)
+	// propagate into helpers
+	for changed, n := true, 0; changed && n < 4; n++ {
+		changed = false
+		for fo, sites := range vf.sites {
+			g := vf.fnOf[fo]
+			fd, ok := g.Node.(*ast.FuncDecl)
+			if !ok {
+				continue
+			}
+			var params []*ast.Ident
+			for _, fld := range fd.Type.Params.List {
+				if len(fld.Names) == 0 {
+					params = append(params, nil)
+				}
+				params = append(params, fld.Names...)
+			}
+			for _, site := range sites {
+				for i, a := range site.Call.Args {
+					if id := muxIdentOf(a); id != nil && vals[info.Uses[id]] && i < len(params) && params[i] != nil {
+						if o := info.Defs[params[i]]; o != nil && !vals[o] {
+							vals[o] = true
+							changed = true
 						}
-						vals[obj] = true
 					}
 				}
 			}
 		}
-		return true
-	})
+	}
+	uses := 0
+	var bad ast.Node
+	for _, g := range fns {
+		pm := parentMap(g.Body)
+		ast.Inspect(g.Body, func(n ast.Node) bool {
+			id, ok := n.(*ast.Ident)
+			if !ok || !vals[info.Uses[id]] {
+				return true
+			}
+			uses++
+			p := pm[id]
+			for {
+				if pe, ok := p.(*ast.ParenExpr); ok {
+					p = pm[pe]
+					continue
+				}
+				break
+			}
+			if call, ok := p.(*ast.CallExpr); ok {
+				if fo, ok := g.Callee(call).(*types.Func); ok && vf.fnOf[fo.Origin()] != nil {
+					for _, a := range call.Args {
+						if ast.Unparen(a) == ast.Expr(id) {
+							return true // handed to a helper of the set: followed there
+						}
+					}
+				}
+			}
+			if !okUse(g, id, p) {
+				bad = id
+			}
+			return true
+		})
+	}
+	return uses, bad
+}
+
+func c01HeaderValue(c *core.Ctx) {
+	c.Rule("R-C01-9", "header conditions: in MuxPath.matchHeaders a request header value is used only as the argument of the value-list test and of the regexp test (no additional condition on the value, e.g. emptiness: an absent header can satisfy a condition whose values/regexp admit the empty string)")
+	ro := muxRolesOf(c, "R-C01-9")
+	if ro == nil {
+		return
+	}
+	f := muxMatcherFn(c, ro, ro.pathT, "matchHeaders", "HTTPHeader", "Header")
+	if f == nil {
+		return
+	}
+	cons := muxFuncConstruct(f)
+	fns := reach(f, 2)
+	vals := map[types.Object]bool{}
+	for _, g := range fns {
+		ast.Inspect(g.Body, func(n ast.Node) bool {
+			if as, ok := n.(*ast.AssignStmt); ok && len(as.Lhs) == 1 && len(as.Rhs) == 1 {
+				if call, ok := ast.Unparen(as.Rhs[0]).(*ast.CallExpr); ok {
+					full := calleeFull(g, call)
+					if full == "(net/http.Header).Get" || full == "(net/http.Header).Values" {
+						if id, ok := as.Lhs[0].(*ast.Ident); ok {
+							obj := g.Info.Defs[id]
+							if obj == nil {
+								obj = g.Info.Uses[id]
+							}
+							vals[obj] = true
+						}
+					}
+				}
+			}
+			return true
+		})
+	}
 	if !c.RequireCount("R-C01-9", "header value variables in matchHeaders", len(vals), 1) {
 		return
 	}
-	pm := parentMap(f.Body)
-	var badUse ast.Node
-	uses := 0
-	ast.Inspect(f.Body, func(n ast.Node) bool {
-		id, ok := n.(*ast.Ident)
-		if !ok || !vals[f.Info.Uses[id]] {
+	uses, badUse := c01ValueUses(fns, vals, func(g *flow.Func, id *ast.Ident, p ast.Node) bool {
+		call, ok := p.(*ast.CallExpr)
+		if !ok {
+			_, isDef := p.(*ast.AssignStmt) // the defining assignment itself
+			return isDef && g.Info.Defs[id] != nil
+		}
+		full := calleeFull(g, call)
+		if strings.HasSuffix(full, "pkg/util/stringtool.StrInSlice") && len(call.Args) > 0 && ast.Unparen(call.Args[0]) == ast.Expr(id) {
 			return true
 		}
-		uses++
-		p := pm[id]
-		for {
-			if pe, ok := p.(*ast.ParenExpr); ok {
-				p = pm[pe]
-				continue
-			}
-			break
-		}
-		call, ok := p.(*ast.CallExpr)
-		okUse := false
-		if ok {
-			full := calleeFull(f, call)
-			if strings.HasSuffix(full, "pkg/util/stringtool.StrInSlice") && len(call.Args) > 0 && ast.Unparen(call.Args[0]) == ast.Expr(id) {
-				okUse = true
-			}
-			if strings.HasSuffix(full, "regexp.Regexp).MatchString") {
-				okUse = true
-			}
-		}
-		if !okUse {
-			badUse = id
-		}
-		return true
+		return strings.HasSuffix(full, "regexp.Regexp).MatchString")
 	})
 	c.Check(badUse == nil && uses > 0, "R-C01-9", cons+"|header value used only by the two predicates", pos(c, badUse),
 		sprintf("%d uses, all as argument of StrInSlice / MatchString", uses),
@@ -278,25 +370,46 @@ func c01HeaderValue(c *core.Ctx) {
 // R-C01-10: the path matcher depends on the request path only through its three predicates.
 func c01PathValue(c *core.Ctx) {
 	c.Rule("R-C01-10", "path conditions: in MuxPath.matchPath the request path is used only in the equality test against the entry's exact path, the prefix test against the entry's pathPrefix and the entry's regexp MatchString (no further condition on the path, e.g. a literal-prefix pre-filter, which is unsound for unanchored expressions)")
-	f := fn(c, hs, "MuxPath", "matchPath")
+	ro := muxRolesOf(c, "R-C01-10")
+	if ro == nil {
+		return
+	}
+	f := muxMatcherFn(c, ro, ro.pathT, "matchPath", "Path")
 	if f == nil {
 		return
 	}
-	cons := fname(hs, "MuxPath", "matchPath")
-	pathF := structField(c, hs, "MuxPath", "path")
-	prefixF := structField(c, hs, "MuxPath", "pathPrefix")
-	reF := structField(c, hs, "MuxPath", "pathRE")
+	cons := muxFuncConstruct(f)
+	specField := func(name string) *types.Var {
+		pt := muxNamedTypeOpt(f.Pkg.Types, "Path")
+		if pt == nil {
+			return nil
+		}
+		return muxFieldInitFrom(c, ro.pathT, muxOneField(pt, name, func(v *types.Var) bool { return v.Name() == name }))
+	}
+	pathF, prefixF := specField("Path"), specField("PathPrefix")
+	reF := muxOneField(ro.pathT, "pathRE", func(v *types.Var) bool { return strings.HasSuffix(v.Type().String(), "regexp.Regexp") })
+	if pathF == nil || prefixF == nil || reF == nil {
+		c.Errorf("R-C01-10: anchor: cannot resolve the MuxPath fields holding the exact path / the prefix / the compiled expression")
+		return
+	}
+	fns := reach(f, 2)
 	vals := map[types.Object]bool{}
-	ast.Inspect(f.Body, func(n ast.Node) bool {
-		if as, ok := n.(*ast.AssignStmt); ok && len(as.Lhs) == 1 && len(as.Rhs) == 1 {
-			if call, ok := as.Rhs[0].(*ast.CallExpr); ok && calleeIs(f, call, "(*pkg/protocols/httpprot.Request).Path") {
-				if id, ok := as.Lhs[0].(*ast.Ident); ok {
-					vals[f.Info.Defs[id]] = true
+	for _, g := range fns {
+		ast.Inspect(g.Body, func(n ast.Node) bool {
+			if as, ok := n.(*ast.AssignStmt); ok && len(as.Lhs) == 1 && len(as.Rhs) == 1 {
+				if call, ok := ast.Unparen(as.Rhs[0]).(*ast.CallExpr); ok && calleeIs(g, call, "(*pkg/protocols/httpprot.Request).Path") {
+					if id, ok := as.Lhs[0].(*ast.Ident); ok {
+						obj := g.Info.Defs[id]
+						if obj == nil {
+							obj = g.Info.Uses[id]
+						}
+						vals[obj] = true
+					}
 				}
 			}
-		}
-		return true
-	})
+			return true
+		})
+	}
 	if !c.RequireCount("R-C01-10", "request path variables in matchPath", len(vals), 1) {
 		return
 	}
@@ -308,48 +421,30 @@ func c01PathValue(c *core.Ctx) {
 		s := f.Info.Selections[sel]
 		return s != nil && s.Obj() == fld
 	}
-	pm := parentMap(f.Body)
-	var badUse ast.Node
-	uses := 0
-	ast.Inspect(f.Body, func(n ast.Node) bool {
-		id, ok := n.(*ast.Ident)
-		if !ok || !vals[f.Info.Uses[id]] {
-			return true
-		}
-		uses++
-		p := pm[id]
-		for {
-			if pe, ok := p.(*ast.ParenExpr); ok {
-				p = pm[pe]
-				continue
-			}
-			break
-		}
-		okUse := false
+	uses, badUse := c01ValueUses(fns, vals, func(g *flow.Func, id *ast.Ident, p ast.Node) bool {
 		switch x := p.(type) {
+		case *ast.AssignStmt:
+			return g.Info.Defs[id] != nil
 		case *ast.BinaryExpr:
 			if x.Op == token.EQL || x.Op == token.NEQ {
 				other := x.X
 				if ast.Unparen(x.X) == ast.Expr(id) {
 					other = x.Y
 				}
-				okUse = isField(other, pathF)
+				return isField(other, pathF)
 			}
 		case *ast.CallExpr:
-			full := calleeFull(f, x)
+			full := calleeFull(g, x)
 			if full == "strings.HasPrefix" && len(x.Args) == 2 && ast.Unparen(x.Args[0]) == ast.Expr(id) && isField(x.Args[1], prefixF) {
-				okUse = true
+				return true
 			}
 			if strings.HasSuffix(full, "regexp.Regexp).MatchString") {
 				if sel, ok := ast.Unparen(x.Fun).(*ast.SelectorExpr); ok && isField(sel.X, reF) {
-					okUse = true
+					return true
 				}
 			}
 		}
-		if !okUse {
-			badUse = id
-		}
-		return true
+		return false
 	})
 	c.Check(badUse == nil && uses > 0, "R-C01-10", cons+"|request path used only by the three matchers", pos(c, badUse),
 		sprintf("%d uses: == path, HasPrefix(pathPrefix), pathRE.MatchString", uses),
